@@ -1,4 +1,5 @@
 import PycModel.Proofs.DeclSkel
+import PycModel.Proofs.ChainLemmas
 /-!
 # `_build_declarations` on declarations of keyword / typedef-name specifiers and named declarators
 
@@ -20,38 +21,6 @@ namespace PycModel.BuildDecl
 open PycModel PycModel.View PycModel.OperandId PycModel.FullExpr PycModel.TypeModify PycModel.DeclSkel
 
 variable {env : Env}
-
-/-! ## walking a modifier chain -/
-
-theorem innerTypeDecl_chain : ∀ (ms : List M) (td : Val) (fuel : Nat), td.isCls .TypeDecl = true → ms.length < fuel →
-    innerTypeDecl fuel (chainVal ms td) = some td
-  | [], td, fuel, htd, hf => by
-    obtain ⟨g, rfl⟩ : ∃ g, fuel = g + 1 := ⟨fuel - 1, by simp at hf; omega⟩
-    simp [innerTypeDecl, chainVal, htd]
-  | m :: ms, td, fuel, htd, hf => by
-    obtain ⟨g, rfl⟩ : ∃ g, fuel = g + 1 := ⟨fuel - 1, by simp at hf; omega⟩
-    simp only [innerTypeDecl, chainVal, wrap_notTypeDecl, Bool.false_eq_true, ↓reduceIte, wrap_getType, Option.bind_some]
-    exact innerTypeDecl_chain ms td g htd (by simp at hf; omega)
-
-theorem mapInnerTypeDecl_chain (f : Val → Option Val) : ∀ (ms : List M) (td : Val) (fuel : Nat),
-    td.isCls .TypeDecl = true → ms.length < fuel →
-    mapInnerTypeDecl fuel (chainVal ms td) f = (f td).map (chainVal ms)
-  | [], td, fuel, htd, hf => by
-    obtain ⟨g, rfl⟩ : ∃ g, fuel = g + 1 := ⟨fuel - 1, by simp at hf; omega⟩
-    simp [mapInnerTypeDecl, chainVal, htd]
-  | m :: ms, td, fuel, htd, hf => by
-    obtain ⟨g, rfl⟩ : ∃ g, fuel = g + 1 := ⟨fuel - 1, by simp at hf; omega⟩
-    simp only [mapInnerTypeDecl, chainVal, wrap_notTypeDecl, Bool.false_eq_true, ↓reduceIte, wrap_getType]
-    rw [mapInnerTypeDecl_chain f ms td g htd (by simp at hf; omega)]
-    cases f td with
-    | none => rfl
-    | some t' => simp [wrap_setType, chainVal]
-
-/-- the completed `TypeDecl` -/
-def tdFull (x : String) (co : Option Coord) (quals : List Val) (ty : Val) : Val :=
-  mk .TypeDecl co [.str x, .list quals, .none, ty]
-
-def identType (co : Option Coord) (names : List String) : Val := mk .IdentifierType co [Val.strs names]
 
 theorem wrap_not_typename (m : M) (t : Val) : (m.wrap t).isCls .Typename = false := by cases m <;> rfl
 
@@ -97,32 +66,6 @@ theorem decl_size (dco : Option Coord) (a b c d e ty f g : Val) (ms : List M) (t
   have h1 : 1 ≤ td.tlen := by cases td <;> simp [Val.tlen]
   have h2 := Val.tlen_getType (mk .Decl dco [a, b, c, d, e, chainVal ms td, f, g]) (chainVal ms td) rfl
   omega
-
-/-- the specifier names, as `_parse_declaration_specifiers` stores them: one `IdentifierType` per keyword -/
-def typeNodes (names : List (String × Option Coord)) : List Val := names.map fun p => identType p.2 [p.1]
-
-theorem typeNodes_find (names : List (String × Option Coord)) :
-    (typeNodes names).find? (fun tn => !tn.isCls .IdentifierType) = none := by
-  induction names with
-  | nil => rfl
-  | cons p r ih => simp only [typeNodes, List.map_cons, List.find?_cons] at ih ⊢; exact ih
-
-theorem attrOrCrash_some {α} (a : α) (site : String) : attrOrCrash (some a) site = pure a := rfl
-
-theorem mapP_typeNodes (g : Val → P (List Val)) (hg : ∀ co n s, g (identType co [n]) s = .ok [Val.str n] s)
-    (names : List (String × Option Coord)) (s : PState) :
-    mapP g (typeNodes names) s = .ok (names.map fun p => [Val.str p.1]) s := by
-  induction names with
-  | nil => rfl
-  | cons p r ih =>
-    simp only [typeNodes, List.map_cons] at ih ⊢
-    simp only [mapP, DeclSkel.bnd, hg, DeclSkel.pur, ih]
-
-theorem flatten_singletons (names : List (String × Option Coord)) :
-    (names.map fun p => [Val.str p.1]).flatten = names.map fun p => Val.str p.1 := by
-  induction names with
-  | nil => rfl
-  | cons p r ih => simp [ih]
 
 theorem mapInner_decl (f : Val → Option Val) (dco : Option Coord) (a b c d e i g : Val) (ms : List M) (td : Val)
     (htd : td.isCls .TypeDecl = true) (F : Nat) (hF : ms.length < F) :
